@@ -123,8 +123,14 @@ def sysStyleOk (F : File) : Bool :=
   F.epochs.all (fun e => e.sats.all fun r => (r.sat.head?.map Char.isAlpha).getD false) ||
   F.epochs.all (fun e => e.sats.all fun r => r.sat.head? == some ' ')
 
+/-- the type cells of the `# / TYPES OF OBSERV` records are two characters wide (or empty) -/
+def typeCellsOk (kc : String × List Str) : Bool :=
+  if kc.1 = "TYPES2" then (kc.2.drop 1).all (fun t => t.length == 0 || t.length == 2)
+  else if kc.1 = "TYPES2C" then kc.2.all (fun t => t.length == 0 || t.length == 2)
+  else true
+
 def File.wf (F : File) : Bool :=
-  sysStyleOk F &&
+  sysStyleOk F && F.hdr.all typeCellsOk &&
   F.hdr.all (fun kc => kinds.any (·.1 == kc.1) && okCells kc.1 kc.2) &&
   !(types F.hdr).isEmpty && nodup (types F.hdr) &&
   F.hdr.any (·.1 == "MNAME") && F.hdr.any (·.1 == "TFIRST") &&
@@ -165,15 +171,21 @@ structure Row where
   num : Str
   obs : List Obs
 
+/-- the row of one satellite record: satellite as the parser names it, its number `int(sat[1:])` -/
+def satRow (t : Str) (us : Int) (flag : Int) (clk : Option Rat) (r : SatRec) : Except Err Row := do
+  let id := normSat r.sat
+  let num ← pyInt (id.drop 1)
+  pure ⟨t, us, flag, clk, id, fmtInt num, r.obs⟩
+
+/-- the rows of one epoch: one per satellite, in order -/
+def epochRows (H : State) (e : Epoch) : Except Err (List Row) := do
+  let y ← fullYear H e
+  e.sats.mapM (satRow (isoTime y e.month.val e.day.val e.hour.val e.minute.val e.second.val)
+    ((datasetMicros y e.month.val e.day.val e.hour.val e.minute.val e.second.val).getD 0) e.flag.val e.clk.val)
+
 def rowsOf (H : State) (rate : Option Rat) (F : File) : Except Err (List Row) :=
   (F.epochs.filter (kept rate)).foldlM (fun acc e => do
-    let y ← fullYear H e
-    let t := isoTime y e.month.val e.day.val e.hour.val e.minute.val e.second.val
-    let us := (datasetMicros y e.month.val e.day.val e.hour.val e.minute.val e.second.val).getD 0
-    let rs ← e.sats.mapM fun r => do
-      let id := normSat r.sat
-      let num ← pyInt (id.drop 1)
-      pure (⟨t, us, e.flag.val, e.clk.val, id, fmtInt num, r.obs⟩ : Row)
+    let rs ← epochRows H e
     pure (acc ++ rs)) []
 
 def column (ts : List Str) (rows : List Row) (sel : Obs → Option Rat) (t : Str) : Col :=
@@ -201,5 +213,29 @@ def expected (rate : Option Rat) (F : File) : Except Err State :=
           time := rows.map (·.time), timeMicros := rows.map (·.micros), epochFlag := rows.map (·.flag),
           clk := rows.map (·.clk), station := rows.map fun _ => station, system := rows.map fun r => r.sat.take 1,
           satellite := rows.map (·.sat), satnum := rows.map (·.num) } }
+
+/-- what the data section relies on at `END OF HEADER`, as a test on `headerState` (the handlers run on the header's
+*values*): sampling rate, `num_obstypes` and the type list, marker name, `TIME OF FIRST OBS` with a century that makes every
+epoch's year readable, empty columns -/
+def hdrOk2 (rate : Option Rat) (F : File) : Bool :=
+  match headerState rate F.hdr with
+  | .error _ => true
+  | .ok H =>
+    let ts := types F.hdr
+    H.rate == rate &&
+    H.metaD.get [key "num_obstypes"] == some (.int (ts.length : Int)) &&
+    H.metaD.get [key "obstypes"] == some (.list ts) &&
+    (match H.metaD.get [key "marker_name"] with
+     | some (.text _) => true
+     | _ => false) &&
+    (match H.metaD.get [key "time_first_obs"] with
+     | some (.text t) => F.epochs.all fun e =>
+        match pyInt (t.take 2 ++ zfill 2 e.yy.text) with
+        | .ok _ => true
+        | .error _ => false
+     | _ => false) &&
+    H.data == { H.data with
+      obs := ts.map fun t => (t, []), lli := ts.map fun t => (t, []), snr := ts.map fun t => (t, []),
+      time := [], timeMicros := [], epochFlag := [], clk := [], station := [], system := [], satellite := [], satnum := [] }
 
 end Midgard.Spec.Rinex2ObsFile
